@@ -35,3 +35,17 @@ def item_dfs(grid_shape, accessible_cells, max_tree_depth, do_forks, randomized_
 def item_wilson(grid_shape, allowed_start, allowed_end, deadend_start, deadend_end, endpoints_not_equal):
     maze = LatticeMazeGenerators.gen_wilson(grid_shape)
     return maze, maze.generate_random_path(True, allowed_start, allowed_end, deadend_start, deadend_end, endpoints_not_equal)
+
+
+# ---------------------------------------------------------------------------- C14: the token-id codec is invertible
+from maze_dataset.tokenization.maze_tokenizer import MazeTokenizerModular
+
+
+def modular_decode_encode(text):
+    "tokens -> ids -> tokens"
+    return MazeTokenizerModular.decode(MazeTokenizerModular.encode(text))
+
+
+def modular_encode_decode(token_ids):
+    "ids -> tokens -> ids"
+    return MazeTokenizerModular.encode(MazeTokenizerModular.decode(token_ids))
